@@ -43,10 +43,12 @@ Nobody == "nobody"
 \* descriptor [pre, loop, tail]:  NOOP x pre ; (MOVI r16,loop ; SUBI r16,r16,1 ; JNZI r16,@SUBI)? ; tail
 \* cost: record of BigNat strings with the schedule entries noop, movi, subi, jnzi, ret
 IsClaim(p) == "claim" \in DOMAIN p
-Tails == {"ret1", "ret0", "rvrt", "retd", "bad", "spin"}
+Tails == {"ret1", "ret0", "ret2", "retmax", "rvrt", "retd", "bad", "spin"}
 Kind(p) == IF IsClaim(p) THEN p.claim.kind
            ELSE CASE p.tail = "ret1" -> "one"        \* RET $one
                   [] p.tail = "ret0" -> "notone"     \* RET $zero
+                  [] p.tail = "ret2" -> "notone"     \* MOVI r17,2 ; RET r17
+                  [] p.tail = "retmax" -> "notone"   \* NOT r17,$zero ; RET r17   (2^64 - 1)
                   [] p.tail = "rvrt" -> "revert"     \* RVRT $one
                   [] p.tail = "spin" -> "forever"    \* JI to itself
                   [] OTHER -> "panic"                \* RETD (not allowed in predicates), undefined opcode
@@ -64,6 +66,7 @@ Need(p, cost) ==
 \* instruction words (opcode byte, then arguments packed from the top; registers: $zero 0, $one 1, r16)
 LOCAL Word(op, rest) == BE(op, 1) \o BE(rest, 3)
 LOCAL R16 == 16 * 262144
+LOCAL R17 == 17 * 262144
 RECURSIVE Noops(_)
 Noops(n) == IF n = 0 THEN "" ELSE "47000000" \o Noops(n - 1)
 CodeOf(p) ==
@@ -73,6 +76,8 @@ CodeOf(p) ==
         at   == p.pre + (IF p.loop > 0 THEN 3 ELSE 0)       \* word index of the tail instruction
         tail == CASE p.tail = "ret1" -> Word(36, 262144)
                   [] p.tail = "ret0" -> Word(36, 0)
+                  [] p.tail = "ret2" -> Word(114, R17 + 2) \o Word(36, R17)
+                  [] p.tail = "retmax" -> Word(28, R17) \o Word(36, R17)
                   [] p.tail = "rvrt" -> Word(54, 262144)
                   [] p.tail = "retd" -> Word(37, 0)
                   [] p.tail = "spin" -> Word(144, at)
